@@ -70,7 +70,11 @@ def corrupt(rng, tp):
         if pattern == "mixed" and k > 4:
             s = rng.randint(1, n - k // 2)
             idx = sorted(set(idx[: k - k // 2] + list(range(s, s + k // 2))))[:k]
-    style = rng.choice(["offset", "field", "zero", "ones", "any"])
+    style = rng.choice(["offset", "field", "zero", "ones", "any", "day-only", "killer", "coordinated"])
+    if style == "killer" and pattern != "burst" and n > 8:
+        # every second line: the worst placement for the day step (each bad day value spoils the day of the good line after it)
+        idx = [i for i in range(1, n - 1, 2)][:k]
+    coord = rng.choice([-1, 1]) * rng.choice([10500, 60000, 180000, 300000])
     fam = FMT[tp.fmt]["family"]
     kinds = set()
     for i in idx:
@@ -92,6 +96,16 @@ def corrupt(rng, tp):
                 tp.jday[i] = rng.randint(0, 511) if fam == "pod" else rng.randint(0, 65535)
             if f in ("msec", "all"):
                 tp.msec[i] = rng.randint(0, 2 ** 27 - 1) if fam == "pod" else rng.randint(0, 2 ** 32 - 1)
+        elif st == "day-only":          # the ms field intact, any day number
+            tp.jday[i] = rng.choice([0, 366, 367, 400, int(tp.jday[i]) + rng.choice([-1, 1, 2]), rng.randint(0, 511)])
+        elif st == "killer":            # a later day, and the time of day of the NEXT line (no jump for the ms step to see)
+            tp.jday[i] = min(int(tp.jday[i]) + rng.choice([1, 1, 2, 100]), 366 if rng.random() < 0.8 else 511)
+            if i + 1 < n and rng.random() < 0.8:
+                tp.msec[i] = int(tp.msec[i + 1]) - rng.choice([0, 0, 300, 999]) if int(tp.msec[i + 1]) >= 999 else int(tp.msec[i + 1])
+        elif st == "coordinated":       # all corrupt lines agree on one wrong offset inside the 6-minute window
+            t = int(tp.truth[i]) + coord
+            y, d, m = ms_to_ydm(t)
+            tp.year[i], tp.jday[i], tp.msec[i] = y, d, m
         elif st == "zero":
             if fam == "pod":
                 tp.year[i], tp.jday[i], tp.msec[i] = 2000, 0, 0
